@@ -95,3 +95,13 @@ func specSortCtxWF(ctx *typedArraySortCtx) bool {
 	}
 	return ctx.needValidate || ctx.detached || !ctx.ta.viewedArrayBuf.detached
 }
+
+func specIsInt(v Value) bool {
+	_, ok := v.(valueInt)
+	return ok
+}
+
+func specIntOf(v Value) int {
+	i, _ := v.(valueInt)
+	return int(i)
+}
